@@ -1,4 +1,5 @@
 use super::scheduler_future::*;
+use super::job_queue::*;
 
 use futures::prelude::*;
 use futures::task;
@@ -7,6 +8,7 @@ use futures::channel::oneshot;
 
 use std::mem;
 use std::pin::*;
+use std::sync::Arc;
 
 ///
 /// The state of a SyncFuture operation
@@ -43,8 +45,40 @@ where   TFn:                Send+FnOnce() -> TFuture,
     /// Tracks this future on the scheduler (this allows polling this future to invoke desync's thread-stealing semantics instead of leaving the queue scheduling to a separate thread)
     scheduler_future: SchedulerFuture<()>,
 
-    /// Signals when the future has finished running (None if this future is completed)
-    task_finished: Option<oneshot::Sender<()>>
+    /// Signals when the future has finished running (None if this future is completed). The value is true if the future panicked
+    task_finished: Option<oneshot::Sender<bool>>,
+
+    /// The queue that this future is running on
+    queue: Arc<JobQueue>
+}
+
+///
+/// Marks the queue as panicked if the future running in its time slot panics while it's being polled
+///
+/// The future is polled by the task that is awaiting the `SyncFuture` rather than by whatever is running the queue, so the panic
+/// would otherwise be invisible to the queue (which would carry on as if the operation had been cancelled)
+///
+struct PanicInSlot<'a> {
+    /// Set to false once the poll has returned normally
+    polling: bool,
+
+    /// Used to tell the job that's holding the queue for us that the future panicked
+    task_finished: &'a mut Option<oneshot::Sender<bool>>,
+
+    /// The queue that the future has its slot on
+    queue: &'a Arc<JobQueue>
+}
+
+impl<'a> Drop for PanicInSlot<'a> {
+    fn drop(&mut self) {
+        if self.polling {
+            // Whatever is running the queue re-raises the panic the next time it polls the job that's holding our slot
+            self.task_finished.take().map(|finished| finished.send(true));
+
+            // If nothing is inside the queue at the moment it's marked from here, otherwise this waits for its runner to do so
+            self.queue.mark_panicked_from_outside();
+        }
+    }
 }
 
 impl<TFn, TFuture> SyncFuture<TFn, TFuture>
@@ -54,11 +88,12 @@ where   TFn:                Send+FnOnce() -> TFuture,
     ///
     /// Creates a new SyncFuture
     ///
-    pub fn new(create_future: TFn, scheduler_future: SchedulerFuture<()>, queue_ready: oneshot::Receiver<()>, task_finished: oneshot::Sender<()>) -> SyncFuture<TFn, TFuture> {
+    pub fn new(create_future: TFn, scheduler_future: SchedulerFuture<()>, queue: &Arc<JobQueue>, queue_ready: oneshot::Receiver<()>, task_finished: oneshot::Sender<bool>) -> SyncFuture<TFn, TFuture> {
         SyncFuture {
             state:              SyncFutureState::WaitingForQueue(queue_ready, create_future),
             scheduler_future:   scheduler_future,
-            task_finished:      Some(task_finished)
+            task_finished:      Some(task_finished),
+            queue:              Arc::clone(queue)
         }
     }
 }
@@ -88,14 +123,20 @@ where   TFn:                Unpin+Send+FnOnce() -> TFuture,
                     if let Poll::Ready(Err(_)) = self.scheduler_future.poll_unpin(context) {
                         // The queue will never get to the point of polling this future
                         result = Poll::Ready(Err(oneshot::Canceled));
-                        self.task_finished.take().map(|finished| finished.send(()));
+                        self.task_finished.take().map(|finished| finished.send(false));
                         Completed
                     } else {
                         // Poll the receiver
                         match recv.poll_unpin(context) {
                             Poll::Ready(Ok(())) => {
                                 // Start the future
-                                let future = create_future();
+                                let future = {
+                                    let this            = &mut *self;
+                                    let mut in_slot     = PanicInSlot { polling: true, task_finished: &mut this.task_finished, queue: &this.queue };
+                                    let future          = create_future();
+                                    in_slot.polling     = false;
+                                    future
+                                };
 
                                 // Poll it immediately to determine its status
                                 result = Poll::Pending;
@@ -120,10 +161,18 @@ where   TFn:                Unpin+Send+FnOnce() -> TFuture,
                 }
 
                 WaitingForFuture(mut future) => {
-                    if let Poll::Ready(future_result) = future.poll_unpin(context) {
+                    let poll_result = {
+                        let this            = &mut *self;
+                        let mut in_slot     = PanicInSlot { polling: true, task_finished: &mut this.task_finished, queue: &this.queue };
+                        let poll_result     = future.poll_unpin(context);
+                        in_slot.polling     = false;
+                        poll_result
+                    };
+
+                    if let Poll::Ready(future_result) = poll_result {
                         // Future has completed
                         result = Poll::Pending;
-                        self.task_finished.take().map(|finished| finished.send(()));
+                        self.task_finished.take().map(|finished| finished.send(false));
 
                         retry = true;
                         WaitingForScheduler(Box::new(future_result))
